@@ -9,6 +9,7 @@ import (
 	"encoding/hex"
 	"fmt"
 	"go/format"
+	"math/big"
 	"os"
 	"os/exec"
 	"path/filepath"
@@ -17,6 +18,7 @@ import (
 	"strconv"
 	"strings"
 	"sync"
+	"syscall"
 	"time"
 
 	"github.com/a-h/templ/cmd/templ/generatecmd/watcher"
@@ -37,7 +39,70 @@ type ent struct {
 	Path    string `json:"path"`
 	Dir     bool   `json:"dir,omitempty"`
 	Content string `json:"content,omitempty"`
-	Mtime   int64  `json:"mtime_ns,omitempty"`
+	Mtime   mtime  `json:"mtime_ns"` // whole nanoseconds relative to the Unix epoch, any sign, any size (a JSON number)
+}
+
+// mtime: a modification time as (seconds, nanoseconds 0..999999999) relative to the Unix epoch - what the file system
+// stores and what Go's time.Time holds; its integer value S*1e9+N need not fit 64 bits (before 1677, after 2262).
+type mtime struct{ S, N int64 }
+
+func ns(x int64) mtime { // x nanoseconds relative to the epoch
+	s, n := x/1e9, x%1e9
+	if n < 0 {
+		s, n = s-1, n+1e9
+	}
+	return mtime{s, n}
+}
+func fromTime(t time.Time) mtime { return mtime{t.Unix(), int64(t.Nanosecond())} }
+func (a mtime) add(d int64) mtime { // d nanoseconds later (earlier when negative)
+	b := ns(d)
+	s, n := a.S+b.S, a.N+b.N
+	if n >= 1e9 {
+		s, n = s+1, n-1e9
+	}
+	return mtime{s, n}
+}
+func (a mtime) cmp(b mtime) int {
+	switch {
+	case a.S < b.S || (a.S == b.S && a.N < b.N):
+		return -1
+	case a == b:
+		return 0
+	}
+	return 1
+}
+func (a mtime) isZero() bool { return a == mtime{} }
+func (a mtime) big() *big.Int {
+	x := new(big.Int).Mul(big.NewInt(a.S), big.NewInt(1e9))
+	return x.Add(x, big.NewInt(a.N))
+}
+func (a mtime) String() string { return a.big().String() }
+func parseMtime(s string) (mtime, bool) {
+	x, ok := new(big.Int).SetString(s, 10)
+	if !ok {
+		return mtime{}, false
+	}
+	q, m := new(big.Int).DivMod(x, big.NewInt(1e9), new(big.Int)) // Euclidean: 0 <= m < 1e9
+	if !q.IsInt64() {
+		return mtime{}, false
+	}
+	return mtime{q.Int64(), m.Int64()}, true
+}
+func (a mtime) MarshalJSON() ([]byte, error) { return []byte(a.String()), nil }
+func (a *mtime) UnmarshalJSON(b []byte) error {
+	v, ok := parseMtime(strings.Trim(string(b), `"`))
+	if !ok {
+		return fmt.Errorf("bad mtime_ns %q", b)
+	}
+	*a = v
+	return nil
+}
+
+// setMtime: utimensat with the exact (seconds, nanoseconds) pair; os.Chtimes would leave the file's time alone for
+// the zero time.Time, which is one of the instants of interest.
+func setMtime(p string, m mtime) error {
+	ts := syscall.Timespec{Sec: m.S, Nsec: m.N}
+	return syscall.UtimesNano(p, []syscall.Timespec{ts, ts})
 }
 
 // edit: applied between the first and the second run of a case (the two-step history family)
@@ -57,6 +122,7 @@ type tcase struct {
 	W2    int    `json:"w_second_run"`
 	Race  bool   `json:"race_binary,omitempty"`
 	Fam   string `json:"family,omitempty"`
+	FS    string `json:"scratch_file_system,omitempty"` // "" = the scratch directory under /tmp; "wide" = the wide-range one (tmpfs)
 }
 
 var rootsOK = []string{"proj", "site", "app1", "my-app", "x.y", "vendors", "v_"}
@@ -170,7 +236,25 @@ func genEdits(r *rng.R, ents []ent) []edit {
 // blockEnts: a non-empty directory at an output path, so that writing the generated file fails
 // ("failed to write target file"); older than every template so that -lazy does not take it for up to date.
 func blockEnts(g string, base int64) []ent {
-	return []ent{{Path: g, Dir: true, Mtime: base - 5000e9}, {Path: g + "/keep.txt", Content: "not generated\n", Mtime: base - 4000e9}}
+	return []ent{{Path: g, Dir: true, Mtime: ns(base - 5000e9)}, {Path: g + "/keep.txt", Content: "not generated\n", Mtime: ns(base - 4000e9)}}
+}
+
+// ageBlockingDirs: a directory at an output path is dated before the template it blocks, whatever that template's own
+// time is (goFileIsUpToDate looks at the directory's time under -lazy; the model has no directory times).
+func ageBlockingDirs(ents []ent) {
+	at := map[string]mtime{}
+	for _, e := range ents {
+		if !e.Dir && strings.HasSuffix(e.Path, ".templ") {
+			at[e.Path] = e.Mtime
+		}
+	}
+	for i, e := range ents {
+		if e.Dir && strings.HasSuffix(e.Path, "_templ.go") {
+			if m, ok := at[strings.TrimSuffix(e.Path, "_templ.go")+".templ"]; ok && m.add(-5000e9).cmp(e.Mtime) < 0 {
+				ents[i].Mtime = m.add(-5000e9)
+			}
+		}
+	}
 }
 
 // blockedEarlyTree: dozens of templates, the output of the first one(s) in walk order blocked by a directory.
@@ -187,23 +271,26 @@ func blockedEarlyTree(r *rng.R, base int64) []ent {
 			continue
 		}
 		used[p] = true
-		ents = append(ents, ent{Path: p, Content: fmt.Sprintf(rng.Pick(r, templOK), fmt.Sprint(i)), Mtime: base + int64(r.Intn(3000))*1e9})
+		ents = append(ents, ent{Path: p, Content: fmt.Sprintf(rng.Pick(r, templOK), fmt.Sprint(i)), Mtime: ns(base + int64(r.Intn(3000))*1e9)})
 	}
 	first := "00first"
 	if r.Intn(3) == 0 {
 		first = "t05"
 	}
-	ents = append(ents, ent{Path: first + ".templ", Content: fmt.Sprintf(templOK[0], "first"), Mtime: base + 7e9})
+	ents = append(ents, ent{Path: first + ".templ", Content: fmt.Sprintf(templOK[0], "first"), Mtime: ns(base + 7e9)})
 	ents = append(ents, blockEnts(first+"_templ.go", base)...)
 	if r.Bool() {
-		ents = append(ents, ent{Path: "pkg/00a.templ", Content: fmt.Sprintf(templOK[1], "x"), Mtime: base + 9e9})
+		ents = append(ents, ent{Path: "pkg/00a.templ", Content: fmt.Sprintf(templOK[1], "x"), Mtime: ns(base + 9e9)})
 		ents = append(ents, blockEnts("pkg/00a_templ.go", base)...)
 	}
 	sort.Slice(ents, func(i, j int) bool { return ents[i].Path < ents[j].Path })
 	return ents
 }
 
-func genTree(r *rng.R, base int64) (root string, ents []ent) {
+// genTree: pool = the instants the scratch file system can hold (see [instants]); nil = ordinary times only.
+// About half of the trees built with a pool are "wide": most of their files - templates, siblings, orphans, other files -
+// are dated at or next to one of those instants, the rest a few hours ago as in the other trees.
+func genTree(r *rng.R, base int64, pool []mtime) (root string, ents []ent) {
 	if r.Intn(100) < 7 {
 		root = rng.Pick(r, rootsSkipped)
 	} else {
@@ -240,9 +327,15 @@ func genTree(r *rng.R, base int64) (root string, ents []ent) {
 	default:
 		nf = 26 + r.Intn(35)
 	}
-	mt := func() int64 { return base + int64(r.Intn(3000))*1e9 }
+	wide := len(pool) > 0 && r.Intn(100) < 50
+	mt := func() mtime {
+		if wide && r.Intn(100) < 65 {
+			return rng.Pick(r, pool).add(rng.Pick(r, nearby))
+		}
+		return ns(base + int64(r.Intn(3000))*1e9)
+	}
 	failPct := []int{0, 0, 8, 30}[r.Intn(4)] // many trees generate cleanly, so that exit status 0 is well represented
-	add := func(p, content string, m int64) bool {
+	add := func(p, content string, m mtime) bool {
 		if used[p] {
 			return false
 		}
@@ -283,7 +376,14 @@ func genTree(r *rng.R, base int64) (root string, ents []ent) {
 			}
 			if r.Intn(100) < 45 { // an existing sibling: up to date or stale, older / same age / newer
 				g := join(d, stem+"_templ.go")
-				gm := m + int64(r.Intn(3)-1)*100e9
+				gm := m.add(int64(r.Intn(3)-1) * 100e9)
+				if wide { // also: the same instant, one nanosecond or one second either side, or an unrelated instant
+					if r.Intn(4) == 0 {
+						gm = mt()
+					} else {
+						gm = m.add(rng.Pick(r, nearby))
+					}
+				}
 				if r.Intn(100) < 12 { // write failure: the output path is a non-empty directory
 					addBlock(g)
 				} else {
@@ -300,8 +400,128 @@ func genTree(r *rng.R, base int64) (root string, ents []ent) {
 			add(join(d, rng.Pick(r, others)), "other "+tag+"\n", mt())
 		}
 	}
+	ageBlockingDirs(ents)
 	sort.Slice(ents, func(i, j int) bool { return ents[i].Path < ents[j].Path })
 	return root, ents
+}
+
+// ---------- the time dimension ----------
+
+const goZeroSec = -62135596800 // time.Time{} = 0001-01-01T00:00:00Z, in seconds relative to the Unix epoch
+
+type instant struct {
+	Name string
+	T    mtime
+}
+
+// instants: where a modification time can sit relative to the thresholds a program might (wrongly) compare with -
+// Go's zero time, the limits of a 64-bit nanosecond count, the Unix epoch, 32-bit seconds, the file system's own limits.
+var instants = []instant{
+	{"year -1199", mtime{-99999999999, 0}},
+	{"Go zero time - 1s", mtime{goZeroSec - 1, 0}},
+	{"Go zero time - 1ns", mtime{goZeroSec - 1, 999999999}},
+	{"Go zero time (0001-01-01)", mtime{goZeroSec, 0}},
+	{"Go zero time + 1ns", mtime{goZeroSec, 1}},
+	{"int64 ns minimum (1677) - 1ns", mtime{-9223372037, 145224191}},
+	{"int64 ns minimum (1677)", mtime{-9223372037, 145224192}},
+	{"-2^31 s (1901-12-13)", mtime{-2147483648, 0}},
+	{"one day before the epoch", mtime{-86400, 0}},
+	{"epoch - 1s", mtime{-1, 0}},
+	{"epoch - 1ns", mtime{-1, 999999999}},
+	{"Unix epoch", mtime{0, 0}},
+	{"epoch + 1ns", mtime{0, 1}},
+	{"epoch + 1s", mtime{1, 0}},
+	{"2^31 s (2038-01-19)", mtime{2147483648, 0}},
+	{"int64 ns maximum (2262)", mtime{9223372036, 854775807}},
+	{"int64 ns maximum (2262) + 1ns", mtime{9223372036, 854775808}},
+	{"2446-05-10 (ext4 maximum)", mtime{15032385535, 999999999}},
+	{"year 9999", mtime{253402300799, 999999999}},
+}
+
+// nearby: offsets applied to an instant or to a template's time to date its neighbours (nanoseconds)
+var nearby = []int64{0, 0, 0, -1, 1, -1e9, 1e9, -100e9, 100e9, -999999999, 500e6}
+
+// holds: the file system under dir stores m exactly (no clamping to its own range, no loss of nanoseconds)
+func holds(dir string, m mtime) bool {
+	p := filepath.Join(dir, "probe")
+	if os.WriteFile(p, nil, 0o644) != nil {
+		return false
+	}
+	defer os.Remove(p)
+	if setMtime(p, m) != nil {
+		return false
+	}
+	fi, err := os.Lstat(p)
+	return err == nil && fromTime(fi.ModTime()) == m
+}
+
+func heldInstants(dir string, base int64) (held []instant) {
+	for _, in := range instants {
+		if holds(dir, in.T) {
+			held = append(held, in)
+		}
+	}
+	held = append(held, instant{"a few hours ago", ns(base + 100e9)}, instant{"tomorrow", ns(base + 27*3600e9)})
+	return held
+}
+
+// mtimeGrid: small trees, one per (instant of the template) x (sibling: absent / stale or up to date, one nanosecond
+// older, the same instant, one nanosecond newer); an orphan, a plain .go file and a second template with an up-to-date
+// sibling are dated at other instants of the list, so that files centuries apart are compared with each other.
+func mtimeGrid(anchors []instant, allFlags bool, r *rng.R, fs string) []tcase {
+	ok := "package p\n\ntempl T(s string) {\n\t<p>{ s }</p>\n}\n"
+	ok2 := "package sub\n\ntempl U() {\n\t<i>u</i>\n}\n"
+	var out []tcase
+	n := len(anchors)
+	for i, a := range anchors {
+		for sib := 0; sib < 7; sib++ {
+			ents := []ent{{Path: "a.templ", Content: ok, Mtime: a.T}}
+			if sib > 0 {
+				content := "// stale\npackage p\n"
+				if sib > 3 {
+					content = siblingContent(0, "a.templ", ok, "x")
+				}
+				ents = append(ents, ent{Path: "a_templ.go", Content: content, Mtime: a.T.add(int64((sib-1)%3 - 1))})
+			}
+			ents = append(ents,
+				ent{Path: "keep.go", Content: "package p\n", Mtime: anchors[(i+5)%n].T},
+				ent{Path: "old_templ.go", Content: "// orphan\npackage p\n", Mtime: anchors[(i+3)%n].T},
+				ent{Path: "sub", Dir: true},
+				ent{Path: "sub/b.templ", Content: ok2, Mtime: anchors[(i+1)%n].T},
+				ent{Path: "sub/b_templ.go", Content: siblingContent(0, "sub/b.templ", ok2, "x"), Mtime: anchors[(i+2)%n].T})
+			sort.Slice(ents, func(x, y int) bool { return ents[x].Path < ents[y].Path })
+			for f := 0; f < 4; f++ {
+				keep, lazy := f&1 == 1, f&2 == 2
+				parity := (i+sib)%2 == 0
+				if !allFlags && keep != (parity != lazy) { // two of the four flag sets per tree, both values of each flag
+					continue
+				}
+				out = append(out, tcase{Fam: "mtime-grid", Root: "proj", Ents: ents, Keep: keep, Lazy: lazy, W: 1 + r.Intn(16), W2: 1 + r.Intn(16), FS: fs})
+			}
+		}
+	}
+	return out
+}
+
+// timeClass: where a modification time sits (evidence histogram)
+func timeClass(m mtime, now mtime) string {
+	switch {
+	case m.cmp(mtime{goZeroSec, 0}) <= 0:
+		return "at or before Go's zero time (year 1)"
+	case m.cmp(mtime{-9223372037, 145224192}) < 0:
+		return "after year 1, before 1677 (below a 64-bit nanosecond count)"
+	case m.S < 0:
+		return "1677..1969 (before the Unix epoch)"
+	case m.isZero():
+		return "the Unix epoch exactly"
+	case m.S == 0:
+		return "within one second after the epoch"
+	case m.cmp(now) <= 0:
+		return "past (1970..now)"
+	case m.cmp(mtime{9223372036, 854775807}) <= 0:
+		return "future (now..2262)"
+	}
+	return "after 2262 (above a 64-bit nanosecond count)"
 }
 
 // ---------- running the real command ----------
@@ -331,7 +551,7 @@ func snapshot(root string) (snap, error) {
 		if err != nil {
 			return err
 		}
-		s[rel] = ent{Path: rel, Content: string(b), Mtime: fi.ModTime().UnixNano()}
+		s[rel] = ent{Path: rel, Content: string(b), Mtime: fromTime(fi.ModTime())}
 		return nil
 	})
 	return s, err
@@ -349,7 +569,7 @@ func (s snap) list() []ent {
 type outcome struct {
 	before, after, mid, after2 snap // mid = after, with the case's edits applied
 	exit, exit2                int
-	start, start2              int64
+	start, start2, end, end2   mtime // wall clock around the first and the second run
 	stderr                     string
 	raceReport                 string
 	walk                       []string
@@ -369,9 +589,8 @@ func build(scratch string, tc tcase) (string, error) {
 	// (goFileIsUpToDate looks at it under -lazy; the model has no directory mtimes)
 	defer func() {
 		for i := len(tc.Ents) - 1; i >= 0; i-- {
-			if e := tc.Ents[i]; e.Dir && e.Mtime != 0 {
-				t := time.Unix(0, e.Mtime)
-				os.Chtimes(filepath.Join(root, filepath.FromSlash(e.Path)), t, t)
+			if e := tc.Ents[i]; e.Dir && !e.Mtime.isZero() {
+				setMtime(filepath.Join(root, filepath.FromSlash(e.Path)), e.Mtime)
 			}
 		}
 	}()
@@ -389,8 +608,7 @@ func build(scratch string, tc tcase) (string, error) {
 		if err := os.WriteFile(p, []byte(e.Content), 0o644); err != nil {
 			return "", err
 		}
-		t := time.Unix(0, e.Mtime)
-		if err := os.Chtimes(p, t, t); err != nil {
+		if err := setMtime(p, e.Mtime); err != nil {
 			return "", err
 		}
 	}
@@ -441,7 +659,14 @@ func walkInProcess(root string) []string {
 	return got
 }
 
+// wideBase: scratch directory on a file system that holds instants the one under /tmp cannot ("" = none available)
+var wideBase string
+
 func execute(scratchBase string, idx int, bin string, tc tcase) (o outcome) {
+	if tc.FS == "wide" && wideBase != "" {
+		scratchBase = filepath.Join(wideBase, filepath.Base(scratchBase))
+		defer os.Remove(scratchBase)
+	}
 	scratch := filepath.Join(scratchBase, fmt.Sprintf("k%d", idx))
 	defer os.RemoveAll(scratch)
 	root, err := build(scratch, tc)
@@ -454,9 +679,10 @@ func execute(scratchBase string, idx int, bin string, tc tcase) (o outcome) {
 		return
 	}
 	o.walk = walkInProcess(root)
-	o.start = time.Now().UnixNano()
+	o.start = fromTime(time.Now())
 	var se string
 	o.exit, se = runCLI(bin, root, tc, tc.W)
+	o.end = fromTime(time.Now())
 	o.stderr = se
 	if strings.Contains(se, "DATA RACE") {
 		o.raceReport = se
@@ -483,8 +709,9 @@ func execute(scratchBase string, idx int, bin string, tc tcase) (o outcome) {
 			return
 		}
 	}
-	o.start2 = time.Now().UnixNano()
+	o.start2 = fromTime(time.Now())
 	o.exit2, se = runCLI(bin, root, tc, tc.W2)
+	o.end2 = fromTime(time.Now())
 	if strings.Contains(se, "DATA RACE") && o.raceReport == "" {
 		o.raceReport = se
 	}
@@ -507,7 +734,7 @@ func encEntries(l []ent, orc map[string]string) [][]byte {
 		if code, ok := orc[e.Path]; ok && !e.Dir {
 			g = "S" + code
 		}
-		a = append(a, []byte(e.Path), []byte(kind), []byte(e.Content), []byte(strconv.FormatInt(e.Mtime, 10)), []byte(g))
+		a = append(a, []byte(e.Path), []byte(kind), []byte(e.Content), []byte(e.Mtime.String()), []byte(g))
 	}
 	return a
 }
@@ -519,8 +746,8 @@ func b01(b bool) []byte {
 	return []byte("0")
 }
 
-func runReq(root string, keep, lazy bool, now int64, l []ent, orc map[string]string) drv.Req {
-	args := [][]byte{[]byte(root), b01(keep), b01(lazy), []byte(strconv.FormatInt(now, 10)), []byte(strconv.Itoa(len(l)))}
+func runReq(root string, keep, lazy bool, now mtime, l []ent, orc map[string]string) drv.Req {
+	args := [][]byte{[]byte(root), b01(keep), b01(lazy), []byte(now.String()), []byte(strconv.Itoa(len(l)))}
 	return drv.Req{Fn: "run", Args: append(args, encEntries(l, orc)...)}
 }
 
@@ -534,32 +761,37 @@ func checkReq(keep, failed bool, before, after []ent, orc map[string]string) drv
 
 type modelRun struct {
 	wf, failed bool
+	wfShape    bool // wf_tree without its condition on modification times
 	walk       []string
 	final      map[string]ent // kind "A" entries are left out
 	ok         bool
 }
 
 func decRun(r [][]byte) (m modelRun) {
-	if len(r) < 3 {
+	if len(r) < 4 {
 		return
 	}
 	m.wf = string(r[0]) == "1"
 	m.failed = string(r[1]) == "1"
-	n, err := strconv.Atoi(string(r[2]))
-	if err != nil || len(r) < 3+n || (len(r)-3-n)%4 != 0 {
+	m.wfShape = string(r[2]) == "1"
+	n, err := strconv.Atoi(string(r[3]))
+	if err != nil || len(r) < 4+n || (len(r)-4-n)%4 != 0 {
 		return
 	}
 	for i := 0; i < n; i++ {
-		m.walk = append(m.walk, string(r[3+i]))
+		m.walk = append(m.walk, string(r[4+i]))
 	}
 	m.final = map[string]ent{}
-	for i := 3 + n; i+3 < len(r); i += 4 {
+	for i := 4 + n; i+3 < len(r); i += 4 {
 		p := string(r[i])
 		switch string(r[i+1]) {
 		case "D":
 			m.final[p] = ent{Path: p, Dir: true}
 		case "F":
-			mt, _ := strconv.ParseInt(string(r[i+3]), 10, 64)
+			mt, ok := parseMtime(string(r[i+3]))
+			if !ok {
+				return
+			}
 			m.final[p] = ent{Path: p, Content: string(r[i+2]), Mtime: mt}
 		}
 	}
@@ -570,8 +802,9 @@ func decRun(r [][]byte) (m modelRun) {
 const slack = int64(200 * time.Millisecond)
 
 // diffTrees compares the tree the model predicts with the tree found on disk.  A file the model wrote carries
-// mtime == now; on disk it must have been written after the run started.  Every other file keeps its mtime exactly.
-func diffTrees(model map[string]ent, now int64, impl snap) string {
+// mtime == now; on disk it must have been written between the start and the end of the run (whatever time - past,
+// future, centuries away - the file it replaces had).  Every other file keeps its mtime exactly.
+func diffTrees(model map[string]ent, now, end mtime, impl snap) string {
 	var keys []string
 	seen := map[string]bool{}
 	for k := range model {
@@ -598,8 +831,8 @@ func diffTrees(model map[string]ent, now int64, impl snap) string {
 			continue
 		case m.Content != i.Content:
 			return fmt.Sprintf("%s: contents differ (model %d bytes %s, disk %d bytes %s)", k, len(m.Content), hash(m.Content), len(i.Content), hash(i.Content))
-		case m.Mtime == now && i.Mtime < now-slack:
-			return fmt.Sprintf("%s: model writes the file, the file on disk was not written during the run", k)
+		case m.Mtime == now && (i.Mtime.cmp(now.add(-slack)) < 0 || i.Mtime.cmp(end.add(slack)) > 0):
+			return fmt.Sprintf("%s: model writes the file, the file on disk was not written during the run (its time: %s)", k, i.Mtime)
 		case m.Mtime != now && i.Mtime != m.Mtime:
 			return fmt.Sprintf("%s: model leaves the file alone, its modification time changed on disk", k)
 		}
@@ -652,6 +885,8 @@ type verdict struct {
 	tie, prop   string // "" = fine; otherwise what went wrong
 	shape       string
 	wf          bool
+	wfShape     bool // well-formed but for the condition on modification times
+	specOK      bool // spec_check on the first run's before/after trees (evaluated on every tree, judged on well-formed ones)
 	rootSkipped bool
 	o           outcome
 	stages      map[string]int
@@ -719,6 +954,8 @@ func evalCases(c *core.Ctx, scratch string, bins [2]string, cases []tcase, par i
 			continue
 		}
 		v.wf = m1.wf
+		v.wfShape = m1.wfShape
+		v.specOK = string(ck[0]) == "1"
 		// (1) model = implementation
 		switch {
 		case o.raceReport != "":
@@ -730,11 +967,11 @@ func evalCases(c *core.Ctx, scratch string, bins [2]string, cases []tcase, par i
 		case strings.Join(o.walk, "\n") != strings.Join(m1.walk, "\n"):
 			v.tie = fmt.Sprintf("WalkFiles order %q, model %q", o.walk, m1.walk)
 		default:
-			if d := diffTrees(m1.final, o.start, o.after); d != "" {
+			if d := diffTrees(m1.final, o.start, o.end, o.after); d != "" {
 				v.tie = "after the run: " + d
 			} else if (o.exit2 != 0) != m2.failed {
 				v.tie = fmt.Sprintf("second run: exit status %d, model failed=%v", o.exit2, m2.failed)
-			} else if d := diffTrees(m2.final, o.start2, o.after2); d != "" {
+			} else if d := diffTrees(m2.final, o.start2, o.end2, o.after2); d != "" {
 				v.tie = "after the second run: " + d
 			}
 		}
@@ -906,12 +1143,12 @@ func Run(c *core.Ctx) {
 	c.Rule = "one evaluation = one directory tree x flag set: the real `templ generate` binary run twice on a scratch copy, before/after trees (path, kind, contents, mtime) and exit status compared with the extracted model and judged by the extracted spec_check; distinct non-trivial = distinct (tree, flags) with at least one template outside skipped directories"
 	c.Trusted = append(c.Trusted,
 		"specification spec/WalkSpec.v (spec_holds; its executable form spec_check is proved sound: C15_spec_check_sound)",
-		"the file system is modelled as a finite map path -> file(contents, mtime) | directory; goroutine scheduling as interleavings of handlers' read and write steps (DESIGN section 10); no symlinks, permissions or I/O errors",
+		"the file system is modelled as a finite map path -> file(contents, mtime) | directory, a modification time being any integer number of nanoseconds relative to the Unix epoch (Z: negative, zero, beyond 64 bits); goroutine scheduling as interleavings of handlers' read and write steps (DESIGN section 10); no symlinks, permissions or I/O errors",
 		"extraction: ExtrOcamlBasic only; ocaml/driver.ml",
-		"Go harness internal/c15, the Go toolchain and race detector, the scratch file system under /tmp")
+		"Go harness internal/c15, the Go toolchain and race detector, the scratch file system under /tmp and, for instants it cannot hold (before 1901, after 2446), a second one under /dev/shm when that is a tmpfs")
 	c.Assume = append(c.Assume,
 		"generate oracle = parser.ParseString + generator.Generate(WithFileName(relative path)) + format.Source, a function of (relative path, contents) - checked against `templ generate -f` on the file alone",
-		"wf_tree: unique paths, parents are directories, no directory (nor the root) is called *.go or *.templ, under -lazy a _templ.go newer than its .templ outside skipped directories is up to date",
+		"wf_tree: unique paths, parents are directories, no directory (nor the root) is called *.go or *.templ, under -lazy a _templ.go newer than its .templ outside skipped directories is up to date, a template outside skipped directories is dated after Go's zero time.Time 0001-01-01T00:00:00Z (no other condition on modification times; without it the statement is false: C15_zero_time_refuted, observed on tmpfs)",
 		"-include-version=false, no -include-timestamp, default watch pattern, non-watch mode, nothing else writes to the tree during the run")
 	c.Proofs()
 
@@ -938,13 +1175,47 @@ func Run(c *core.Ctx) {
 
 	skipSweep(c)
 
-	// cases: small hand-made trees first (so the first failure is small), then random trees x all four flag sets
+	// the time dimension: which of the instants of interest the scratch file system stores exactly; a second scratch
+	// directory on a memory file system when that one holds instants the first cannot (ext4: 1901..2446; tmpfs: all)
 	base := time.Now().Add(-3*time.Hour).Unix() * 1e9
+	held := heldInstants(scratch, base)
+	var pool []mtime
+	var heldNames, wideNames []string
+	for _, in := range held {
+		pool = append(pool, in.T)
+		heldNames = append(heldNames, in.Name)
+	}
+	var wideOnly []instant
+	var widePool []mtime
+	wideBase = ""
+	if d, err := os.MkdirTemp("/dev/shm", "c15_"); err == nil {
+		defer os.RemoveAll(d)
+		for _, in := range instants {
+			if holds(d, in.T) && !holds(scratch, in.T) {
+				wideOnly = append(wideOnly, in)
+				wideNames = append(wideNames, in.Name)
+			}
+			if holds(d, in.T) {
+				widePool = append(widePool, in.T)
+			}
+		}
+		if len(wideOnly) > 0 {
+			wideBase = d
+		}
+	}
+	c.Extra["instants_held_by_scratch_fs"] = heldNames
+	c.Extra["instants_held_only_by_wide_scratch_fs"] = wideNames
+
+	// cases: small hand-made trees first (so the first failure is small), then random trees x all four flag sets
 	var cases []tcase
 	for _, t := range fixedTrees(base) {
 		for f := 0; f < 4; f++ {
 			cases = append(cases, tcase{Fam: "fixed", Root: t.Root, Ents: t.Ents, Keep: f&1 == 1, Lazy: f&2 == 2, W: 1 + c.Rng.Intn(16), W2: 1 + c.Rng.Intn(16)})
 		}
+	}
+	cases = append(cases, mtimeGrid(held, !c.Quick(), c.Rng, "")...)
+	if wideBase != "" {
+		cases = append(cases, mtimeGrid(wideOnly, !c.Quick(), c.Rng, "wide")...)
 	}
 	nExh := 0
 	for _, t := range exhaustiveTrees(base, !c.Quick()) {
@@ -959,10 +1230,19 @@ func Run(c *core.Ctx) {
 		nTrees = v
 	}
 	for i := 0; i < nTrees; i++ {
-		root, ents := genTree(c.Rng, base)
+		root, ents := genTree(c.Rng, base, pool)
 		ws := []int{1, 16, 2 + c.Rng.Intn(14), 1 + c.Rng.Intn(16)}
 		for f := 0; f < 4; f++ {
 			cases = append(cases, tcase{Fam: "random", Root: root, Ents: ents, Keep: f&1 == 1, Lazy: f&2 == 2, W: ws[(f+i)%4], W2: 1 + c.Rng.Intn(16), Race: !c.Quick() && (i%4 == 0)})
+		}
+	}
+	// random trees on the wide-range scratch file system: the whole list of instants, year 1 and year 9999 included
+	if wideBase != "" {
+		nWide := c.N(12, 300)
+		for i := 0; i < nWide; i++ {
+			root, ents := genTree(c.Rng, base, widePool)
+			f := i % 4
+			cases = append(cases, tcase{Fam: "random-wide-fs", Root: root, Ents: ents, Keep: f&1 == 1, Lazy: f&2 == 2, W: 1 + c.Rng.Intn(16), W2: 1 + c.Rng.Intn(16), FS: "wide"})
 		}
 	}
 	// write failures early in walk order, many files still pending, w = 1 and w > 1
@@ -976,7 +1256,7 @@ func Run(c *core.Ctx) {
 	// two-step histories: run, edit templates (shorter / longer / broken / deleted), run again
 	nHist := c.N(40, 500)
 	for i := 0; i < nHist; i++ {
-		root, ents := genTree(c.Rng, base)
+		root, ents := genTree(c.Rng, base, pool)
 		eds := genEdits(c.Rng, ents)
 		if len(eds) == 0 {
 			continue
@@ -1003,6 +1283,7 @@ func Run(c *core.Ctx) {
 	famCases, famProp, famTie := map[string]int{}, map[string]int{}, map[string]int{}
 	shrunkTie, shrunkProp := false, false
 	nWf, nSkippedRoot := 0, 0
+	nZero, nZeroSpecFalse := 0, 0
 	for i, v := range vs {
 		tc := cases[i]
 		nInScope := 0
@@ -1016,7 +1297,7 @@ func Run(c *core.Ctx) {
 			h := sha256.New()
 			fmt.Fprintf(h, "%s|%v|%v|", tc.Root, tc.Keep, tc.Lazy)
 			for _, e := range tc.Ents {
-				fmt.Fprintf(h, "%s|%v|%s|%d|", e.Path, e.Dir, e.Content, e.Mtime)
+				fmt.Fprintf(h, "%s|%v|%s|%s|", e.Path, e.Dir, e.Content, e.Mtime)
 			}
 			key = hex.EncodeToString(h.Sum(nil)[:12])
 		}
@@ -1031,6 +1312,15 @@ func Run(c *core.Ctx) {
 		}
 		if v.wf {
 			nWf++
+		}
+		if !v.wf && v.wfShape && v.tie == "" {
+			// the one condition wf_tree puts on times fails: a template outside skipped directories dated at or before
+			// Go's zero time.  The model (compared above) predicts that the command skips it; the specification is not
+			// judged (C15_zero_time_refuted) but what it says of the command's output is recorded.
+			nZero++
+			if !v.specOK {
+				nZeroSpecFalse++
+			}
 		}
 		if v.rootSkipped {
 			nSkippedRoot++
@@ -1089,6 +1379,7 @@ func Run(c *core.Ctx) {
 	c.Extra["model_differences_by_family"] = famTie
 	c.Extra["well_formed_cases"] = nWf
 	c.Extra["skipped_root_cases"] = nSkippedRoot
+	c.Extra["cases_with_a_template_dated_at_or_before_go_zero_time"] = map[string]int{"cases (model = command on all of them)": nZero, "of which the command's output does not meet the specification (template skipped, exit status 0)": nZeroSpecFalse}
 	for i := 0; i < len(cases) && i < 3; i++ {
 		k := 12 + i*37
 		if k < len(cases) {
@@ -1142,6 +1433,43 @@ func hist(c *core.Ctx, tc tcase, v verdict) {
 		}
 	}
 	c.Hist(fmt.Sprintf("flags: keep=%v lazy=%v", tc.Keep, tc.Lazy))
+	// the time dimension, from the times actually on disk before the run
+	if tc.FS == "wide" && wideBase != "" {
+		c.Hist("scratch file system: wide range (tmpfs)")
+	} else {
+		c.Hist("scratch file system: /tmp")
+	}
+	seenClass := map[string]bool{}
+	for k, e := range v.o.before {
+		if e.Dir {
+			continue
+		}
+		kind := "other file"
+		switch {
+		case strings.HasSuffix(k, ".templ"):
+			kind = "template"
+			if g, ok := v.o.before[strings.TrimSuffix(k, ".templ")+"_templ.go"]; ok && !g.Dir {
+				rel := "sibling: more than 1s away from its template"
+				switch d := new(big.Int).Sub(g.Mtime.big(), e.Mtime.big()); {
+				case d.Sign() == 0:
+					rel = "sibling: same instant as its template"
+				case d.IsInt64() && d.Int64() > -1e9 && d.Int64() < 0:
+					rel = "sibling: less than 1s older than its template"
+				case d.IsInt64() && d.Int64() < 1e9 && d.Int64() > 0:
+					rel = "sibling: less than 1s newer than its template"
+				case d.IsInt64() && (d.Int64() == 1e9 || d.Int64() == -1e9):
+					rel = "sibling: exactly 1s away from its template"
+				}
+				seenClass[rel] = true
+			}
+		case strings.HasSuffix(k, "_templ.go"):
+			kind = "_templ.go"
+		}
+		seenClass["has "+kind+" dated "+timeClass(e.Mtime, v.o.start)] = true
+	}
+	for k := range seenClass {
+		c.Hist(k)
+	}
 	switch {
 	case tc.W == 1:
 		c.Hist("w: 1")
@@ -1257,7 +1585,7 @@ func exhaustiveTrees(base int64, all bool) []fixed {
 	if all {
 		locs = []string{"", "sub", "_x", "vendor/in", "node_modules", ".h/a/b"}
 	}
-	t := func(s int) int64 { return base + int64(s)*1e9 }
+	t := func(s int) mtime { return ns(base + int64(s)*1e9) }
 	var out []fixed
 	for _, loc := range locs {
 		var dirs []ent
@@ -1314,7 +1642,7 @@ type hfixed struct {
 
 // historyFixed: generate, then shorten / lengthen / break / delete the template, generate again.
 func historyFixed(base int64) []hfixed {
-	t := base + 50e9
+	t := ns(base + 50e9)
 	var out []hfixed
 	for _, first := range []string{templLong, templShort} {
 		for _, ed := range []edit{{Path: "a.templ", Content: templShort}, {Path: "a.templ", Content: templLong}, {Path: "a.templ", Content: "package p\n\ntempl T( {\n"}, {Path: "a.templ", Delete: true}} {
@@ -1329,7 +1657,7 @@ func fixedTrees(base int64) []fixed {
 	bad := "package p\n\ntempl T( {\n"
 	fmtbad := "package p\n\nfunc broken( {\n\ntempl T() {\n<p>x</p>\n}\n"
 	stale := "// stale\npackage p\n"
-	t := func(s int) int64 { return base + int64(s)*1e9 }
+	t := func(s int) mtime { return ns(base + int64(s)*1e9) }
 	up := func(rel, src string) string { code, _ := oracle(rel, src); return code }
 	return []fixed{
 		{"proj", []ent{{Path: "a.templ", Content: ok, Mtime: t(10)}}},
